@@ -748,6 +748,35 @@ def persist(res, rng, tier):
     for sp in shared_paths:
         if os.path.exists(sp):
             os.unlink(sp)
+    # heavy hitters at a default-threshold rounding boundary: width w and n_added = m·w with (1.0 / w)·n just below m, a key with count m − 1:
+    # "every query equals the original's" must also hold where the original (phi defaulted) and the loaded copy (phi explicit) could round differently
+    ws = [w for w in range(2, 200) if any((1.0 / w) * (m * w) < m for m in range(2, 12))]
+    for w in rng.sample(ws, 2 if tier == "quick" else len(ws)):
+        m = rng.choice([m for m in range(2, 12) if (1.0 / w) * (m * w) < m])
+        o = s.HeavyHitters(w, rng.choice([1, 2]), 4)
+        nn = m * w
+        o.add(b"hv", nn - (m - 1) - m)
+        o.add(b"r1", m - 1)
+        o.add(b"r2", m)
+        path = tmpfile()
+        try:
+            o.save(path)
+            for shm in (False, True):
+                l = s.HeavyHitters.load(path, shared_memory=shm)
+                for kq in (1000, 2, None):
+                    a1, a2 = o.query(kq), l.query(kq)
+                    if [(k, int(c)) for k, c in a1] != [(k, int(c)) for k, c in a2]:
+                        res.oracle_failures.append({"pid": "C10", "what": f"C10 HeavyHitters(width={w}) with n_added = {nn} = {m}·width (phi·n_added rounds just below {m}): query({kq}) of the "
+                                                                             f"original {a1} != of the loaded copy {a2} (shared_memory={shm})", "kind": "hh", "w": w, "m": m})
+                        break
+                del l
+        finally:
+            os.unlink(path)
+        n += 1
+        res.evaluations += 1
+        res.nontrivial(["persist-threshold-boundary", w, m])
+        res.count("persist_threshold_boundary")
+        del o
     # constructor validation grid: real acceptance vs the model's ctorValid
     grid = []
     for w, d in ((0, 1), (1, 0), (1, 1), (-1, 2)):
